@@ -30,12 +30,13 @@ from mc.run import Hang, HarnessError
 
 ID = "C30"
 LEVEL = "exploration"
-WATCHDOG_S = 60.0
+WATCHDOG_S = 20.0  # CPU seconds of the worker per case; the runner adds a 10x wall-clock limit, which is what catches a child that hangs
 ASSUMPTIONS = [
     "sync scheduler in both engines; base data are distinct positive integers (from_array) or the creation routines' own values",
     "the expression engine runs in a child interpreter with DASK_ARRAY__QUERY_PLANNING=True (handshake asserts array_expr_enabled() and "
     "the same dask source tree); the classic engine runs in the worker process with query planning off (asserted)",
-    "the alphabet is restricted a priori to operations the expression engine implements; NotImplementedError from it is a refusal (counted)",
+    "the alphabet is restricted a priori to operations the expression engine implements; NotImplementedError while BUILDING an expression is a "
+    "refusal (counted); raised only when the built expression is optimized/lowered at compute time it is a failure",
     "float results are compared with rtol=1e-9*size (summation order may differ), integer/bool results exactly; dtype is part of the value",
     "a deviation from NumPy that the classic engine shows in the same way on the same program (same failure class) belongs to the shared "
     "classic code (C19-C27) and is only counted (shared_with_classic); a failure already shown by the program's prefix is reported at the "
@@ -510,6 +511,8 @@ def known_class(case, cls, got, ys):
         return "list0", "list-index"
     if cls == "expr-raises:ValueError" and last == "daidx" and msg.startswith("Shapes do not align"):
         return "daidx", "offset-dep-misaligned"
+    if cls == "expr-raises:NotImplementedError" and got["status"] == "compute-exc" and msg == "" and last in ("add_rev", "add_rechunk"):
+        return "elemwise", "operands-with-different-chunks"
     if cls == "wrong-dtype" and last in SCALAR_STEPS and str(ys[-2].dtype) not in DEFAULT_DTYPES:
         return "elemwise", "python-scalar-promotes"
     if cls == "lazy-dtype" and last in ("max_last", "max_gt", "min_split") and tuple(got.get("shape", (1,))) == () and got.get("dtype") == "int64":
@@ -566,7 +569,9 @@ def judge(case, seed, counts):
 
     if got["status"] != "ok":
         name, msg = got["exc"]
-        if name == "NotImplementedError":
+        if name == "NotImplementedError" and got["status"] == "build-exc":
+            # refusal while BUILDING the expression (unsupported API).  A NotImplementedError that only appears when the built
+            # expression is optimized/lowered at compute time is not a refusal: the engine accepted the program.
             counts.append("rejected")
             return None
         where = "building" if got["status"] == "build-exc" else "computing"
